@@ -249,9 +249,10 @@ func (*hctx) Run(rc *core.RunCtx) *core.RunResult {
 		for _, p := range plan {
 			simrt.Yield(siteCtxE)
 			live := liveList()
-			if stopped && (p.kind == "push" || p.kind == "finish") {
+			if stopped && p.kind == "push" {
 				// fq stops the interpreter last; what an interrupt does to an
-				// evaluation pushed after Stop is not part of the statement
+				// evaluation pushed after Stop is not part of the statement.
+				// Evaluations that were running when Stop came still unwind and finish.
 				continue
 			}
 			switch p.kind {
@@ -323,7 +324,9 @@ func (*hctx) Run(rc *core.RunCtx) *core.RunResult {
 				}
 				e := entries[p.a%len(entries)]
 				hi := hist.invoke(0, ctxOp{Kind: "write", ID: e.id})
-				_, err := iox.CtxWriter{Writer: io.Discard, Ctx: e.ctx}.Write([]byte("x"))
+				// through the interface: works whether Write has a value or a pointer receiver
+				var cw io.Writer = &iox.CtxWriter{Writer: io.Discard, Ctx: e.ctx}
+				_, err := cw.Write([]byte("x"))
 				hist.ret(hi, ctxOut{OK: err == nil})
 				descr = append(descr, fmt.Sprintf("write(%d)", e.id))
 			case "stop":
